@@ -1,4 +1,4 @@
-package sqlite
+package c13_test
 
 import (
 	"bufio"
@@ -18,7 +18,9 @@ import (
 	"time"
 
 	"github.com/high-moctane/mocrelay"
+	"github.com/high-moctane/mocrelay/handler/sqlite"
 	vk "github.com/high-moctane/mocrelay/internal/verifkit"
+	_ "github.com/mattn/go-sqlite3"
 	mprom "github.com/high-moctane/mocrelay/middleware/prometheus"
 	"github.com/prometheus/client_golang/prometheus"
 )
@@ -50,7 +52,7 @@ func c13Base(ctx context.Context, r *rand.Rand, t testing.TB, c *c13Comp, depth 
 	case 3:
 		db := openMemDB(t)
 		hctx, cancel := context.WithCancel(ctx)
-		h, err := NewSQLiteHandler(hctx, db, &SQLiteHandlerOption{EventBulkInsertNum: 1 + r.IntN(3), MaxLimit: NoLimit})
+		h, err := sqlite.NewSQLiteHandler(hctx, db, &sqlite.SQLiteHandlerOption{EventBulkInsertNum: 1 + r.IntN(3), MaxLimit: sqlite.NoLimit})
 		if err != nil {
 			cancel()
 			db.Close()
@@ -326,7 +328,7 @@ func TestVerif_C13(t *testing.T) {
 		hctx, hcancel := context.WithCancel(ctx)
 		defer hcancel()
 		nbulk := 1 + r.IntN(2)
-		h, err := NewSQLiteHandler(hctx, dbA, &SQLiteHandlerOption{EventBulkInsertNum: nbulk, MaxLimit: NoLimit})
+		h, err := sqlite.NewSQLiteHandler(hctx, dbA, &sqlite.SQLiteHandlerOption{EventBulkInsertNum: nbulk, MaxLimit: sqlite.NoLimit})
 		if err != nil {
 			rep.Inconclusive("C13: could not create the SQLite handler on a file database: " + err.Error())
 			return
@@ -494,4 +496,17 @@ func leakSite(g vk.Goroutine) string {
 		f = f[i+1:]
 	}
 	return strings.NewReplacer("(", "", ")", "", "*", "").Replace(f)
+}
+
+var c13DBSeq atomic.Int64
+
+// openMemDB opens a private shared-cache in-memory database with one connection.
+func openMemDB(t testing.TB) *sql.DB {
+	name := fmt.Sprintf("file:verif_c13_%d_%d?mode=memory&cache=shared", c13DBSeq.Add(1), vk.Seed())
+	db, err := sql.Open("sqlite3", name)
+	if err != nil {
+		t.Fatalf("open: %v", err)
+	}
+	db.SetMaxOpenConns(1)
+	return db
 }
